@@ -6,9 +6,9 @@ MODE = "corpus"
 EXPLANATION = ("Per corpus program: the output of the repository's generator is executed symbolically (with the real EoWriter) and compared by z3 with an independent reading "
                "of the same XML (O-xml: own ElementTree parse with proper xs:boolean, own reference wire images), for all objects within the value bounds. The same expectation is "
                "checked against code generated from five twin trees that spell one boolean attribute's default explicitly.")
-BOUNDS = {"quick": "programs: every class of corpus/core, generated from the core tree and from 5 explicit-default twin trees; strings of length 0 or 1 (any code point 0..0x10FFFF), arrays of 0, 1 or 2 elements, "
+BOUNDS = {"quick": "programs: every class of corpus/core plus a VERIF_SEED-chosen sample of 160 instruction pairs (and all 150 singles) of the generated pair corpus, core generated from the core tree and from 5 explicit-default twin trees; strings of length 0 or 1 (any code point 0..0x10FFFF), arrays of 0, 1 or 2 elements, "
                    "integers / enum ordinals over their whole wire range",
-          "thorough": "same programs; string lengths {0,1,2,3}, array counts {0,1,2,3}"}
+          "thorough": "core corpus as quick plus ALL 5226 structs of the generated pair corpus (every ordered pair of 36 instruction templates in 5 contexts); string lengths {0,1,2,3}, array counts {0,1,2,3}"}
 OUTSIDE = "specifications not in the corpus; longer strings/arrays; objects violating their declaration (C16)"
 ASSUMPTIONS = ["O-xml (props/oxml.py + harness/vh_refsem.py) is the reading of the eo-protocol semantics",
                "a switch value that matches no case and has no default imposes nothing on case data; wire lengths below zero are assumed away"]
@@ -16,7 +16,7 @@ _twin_dirs = {}
 
 
 def trees(tier):
-    out = [("core", corpus.CORE)]
+    out = [("core", corpus.CORE), ("pairs", corpus.pairs(tier, corpus.seed())[0])]
     for name in twins.TWINS:
         d, n = twins.make(corpus.CORE, name)
         _twin_dirs[name] = d
@@ -25,7 +25,7 @@ def trees(tier):
 
 
 def programs(tier):
-    return len(corpus.classes()[1]) * (1 + len(twins.TWINS))
+    return len(corpus.classes()[1]) * (1 + len(twins.TWINS)) + len(corpus.pairs(tier, corpus.seed())[2])
 
 
 def on_generator_failure(run, name, xml_dir, msg):
@@ -45,6 +45,11 @@ def jobs(tier):
     js = []
     for tree in ["core"] + list(twins.TWINS):
         for c in cls:
-            js.append(dict(name=f"wire[{tree}:{c['name']}]", fn="wire", args=[types, c, cfg], tree=tree, collect_models=(2 if tree == "core" else 1),
+            js.append(dict(name=f"wire[{tree}:{c['name']}]", fn="wire", args=[corpus.closure(types, c["instrs"]), c, cfg], tree=tree, collect_models=(2 if tree == "core" else 1),
                            expect=["serialized length equals the prescribed length"]))
+    _, ptypes, pcls = corpus.pairs(tier, corpus.seed())
+    pcfg = {"lens": [0, 1], "counts": [0, 1, 2]} if tier == "quick" else {"lens": [0, 1, 2], "counts": [0, 1, 2]}
+    for c in pcls:
+        js.append(dict(name=f"wire[pairs:{c['name']}]", fn="wire", args=[corpus.closure(ptypes, c["instrs"]), c, pcfg], tree="pairs", collect_models=1,
+                       expect=["serialized length equals the prescribed length"]))
     return js
